@@ -791,6 +791,16 @@ impl Host {
         }
         self.note(4, kind as u32 * 2 + dir as u32);
         if pend.is_some() {
+            // The reference implementation reports a queued partial completion as
+            // COMPLETED(n); the ABI (and the runtime's own ReturnCode docs) also
+            // allow CANCELLED(n) with n > 0, which other hosts produce. Swarm switch.
+            if self.cfg.cancelled_with_progress && kind == Kind::Stream && pend == Some(Res::Completed) {
+                let partial = self.end_ref(h).unwrap().buf.as_ref().map(|b| b.progress > 0 && b.progress < b.len).unwrap_or(false);
+                if partial && self.ch.pick(2) == 1 {
+                    self.end_mut(h).pending = Some(Res::Cancelled);
+                    self.fault("cancelled_with_progress");
+                }
+            }
             let pr = self.end_ref(h).unwrap().pending.unwrap();
             self.fault(match pr {
                 Res::Completed => "op_cancel_race_completed",
